@@ -109,7 +109,7 @@ P = D.DesignProperty(
     rule=("case = generated design spec accepted by the constructor plus an aux seed that selects 6 one-hot assignments; "
           "all applicable (trial, factor, level) triples are enumerated; non-trivial = the design has a complex-window "
           "derived factor among the solver-decided factors, an Exclude constraint or a sustained factor; distinct = distinct spec JSON"),
-    cfg_quick=CFG, n_quick=150, n_thorough=3000, case_limit=(20, 60),
+    cfg_quick=CFG, n_quick=150, n_thorough=1500, case_limit=(20, 60),
     limits={"max_T": {"quick": 12, "thorough": 20}},
     assumptions=["applicability follows the documented start/stride rule (vp/ref.py), the rest is observed from the block"])
 P.export(globals())
